@@ -233,6 +233,15 @@ def c18_3(ctx, r):
         r.check(("-u" in toks or "--user" in toks or "--me" in toks) and not filt, "squeue lists all batches of the submitting user", key_of(cs, f"squeue filtered by {filt or 'something other than the user'}"), cs.loc(x),
                 f"the status poll is `{lit.strip()[:70]}`: " + (f"the filter {filt} hides" if filt else "without -u it does not select") + " this submission's batches of other groups (another account / partition): they are absent from the answer, "
                 "absent counts as finished, and completion is forced while they run", "A batch that the scheduler reports in any state other than finished or absent is never treated as finished")
+    # ... and nothing is appended to that command afterwards (`cmd += " -t ..."` restricts the listing just as well)
+    for x in iter_own(cs.node):
+        if isinstance(x, ast.AugAssign) and isinstance(x.op, ast.Add) and isinstance(x.value, (ast.JoinedStr, ast.Constant)):
+            lit = _lit(x.value) if isinstance(x.value, ast.JoinedStr) or isinstance(x.value.value, str) else ""
+            toks = lit.split()
+            filt = sorted(t for t in toks if t.startswith("-") and t not in ("-h", "--noheader", "-u", "--user", "--me", "--Format", "-O", "-o", "--format"))
+            r.check(not filt, "nothing restricts the listing after the command was built", key_of(cs, f"squeue listing restricted by appended {filt}"), cs.loc(x),
+                    f"`{ctx.src(x)[:70]}` appends {filt} to the status poll: batches outside that selection (a state JADE has no name for - SUSPENDED, REQUEUED, ... -, another account) are absent from the answer, "
+                    "absent counts as finished, and completion is forced while they are still alive", "A batch that the scheduler reports in any state other than finished or absent is never treated as finished")
     ic = ctx.fn("AsyncHpcSubmitter.is_complete", "C18.3")
     st = [x for x in iter_own(ic.node) if isinstance(x, ast.Assign) and ctx.src(x.targets[0]) == "self._is_complete" and isinstance(x.value, ast.Compare)]
     ok = len(st) == 1 and isinstance(st[0].value.ops[0], ast.In) and {ctx.src(e) for e in st[0].value.comparators[0].elts} == {"HpcJobStatus.COMPLETE", "HpcJobStatus.NONE"}
@@ -504,3 +513,19 @@ def c18_7(ctx, r):
                 "together for long batch names) is reported as 'no such job', which every caller treats as finished while the batch is running", "a status that cannot be determined is never treated as finished")
     if n < 2:
         raise AnalysisError("C18.7", f"{n} NONE answers recognised in SlurmManager.check_status")
+
+
+@rule(P, "C18.8", "T6", "a field validator of the SLURM option model hands back the configured value itself (what is configured is what the script carries)", min_obligations=1)
+def c18_8(ctx, r):
+    """Validators of SlurmConfig check a value (format of gres, say) and return it.  One that returns a *derived* value - the matched part of a
+    regular expression - silently rewrites options it does not fully match: a walltime in SLURM's D-HH:MM:SS form loses its days and the
+    script asks for `--time=00:00:00`."""
+    from ..lib import validators_changing_value
+
+    examined, bad = validators_changing_value(ctx, {"SlurmConfig"})
+    if examined < 1:
+        raise AnalysisError("C18.8", "no field validator in SlurmConfig")
+    for f, n in bad:
+        r.bad(key_of(f, "validator returns a derived value"), f.loc(n), f"the validator {f.short} returns `{ctx.src(n.value)}`, not the value it validated: the option written to the sbatch script differs from the one "
+              "configured (a D-HH:MM:SS walltime is cut to HH:MM:SS)", "the script contains exactly the configured account, walltime and optional parameters")
+    r.ok(f"{examined} field validators of SlurmConfig return their own value")
